@@ -226,17 +226,15 @@ class FakeResp:
 
 
 def hpp_client(settings, pid, password):
-    c = hpp.HppClient.__new__(hpp.HppClient)     # __init__ cannot run on this tree (finding D6: certificate path)
-    c.settings = settings
-    c.game_server_id = 0x12345678
-    c.nex_version = "3.10.0"
-    c.pid = pid
-    c.password = password
-    c.environment = "L1"
-    c.key_derivation = kerberos.KeyDerivationOld(65000, 1024)
-    c.call_id = 1
-    c.context = None
-    return c
+    """the real constructor; on this tree it raises FileNotFoundError (finding D6, property C20: doubled certificate
+    path), so `resources.certificate` is stubbed for the duration of the call — everything else is the library's"""
+    saved = (hpp.resources.certificate, hpp.tls.TLSContext.set_authority)
+    hpp.resources.certificate = lambda name: None
+    hpp.tls.TLSContext.set_authority = lambda self, ca: None
+    try:
+        return hpp.HppClient(settings, 0x12345678, "3.10.0", pid, password)
+    finally:
+        hpp.resources.certificate, hpp.tls.TLSContext.set_authority = saved
 
 
 def hpp_request(settings, pid, password, call_id, protocol, method, body, status, resp_body):
